@@ -287,13 +287,17 @@ func runStages(em *hlib.Emitter, in input, final bool) {
 		}
 	}
 	var expect []string
-	nb, nparked, nhitDeliveries, ninfo, ndp, ndropped := 0, 0, 0, 0, 0, 0
+	nb, nparked, nhitDeliveries, ninfo, ndp, ndropped, nlexed := 0, 0, 0, 0, 0, 0, 0
 	msg := hlib.Recover(func() {
 		for _, o := range in.Ops {
 			switch o.Op {
+			case "noise":
+				noise(o.R)
 			case "bmap":
 				nb++
-				for _, d := range o.Dps {
+				ms, told, nl := metricsOf(o.Dps, o.Lex)
+				nlexed += nl
+				for _, d := range told {
 					ndp++
 					if e, ok := p.rekey(d); ok {
 						expect = append(expect, e.Coq())
@@ -301,7 +305,10 @@ func runStages(em *hlib.Emitter, in input, final bool) {
 						ndropped++
 					}
 				}
-				mm := mmgen.Build(o.Dps)
+				mm := gostatsd.NewMetricMap(false)
+				for _, m := range ms {
+					mm.Receive(m)
+				}
 				if ch == nil {
 					head.DispatchMetricMap(ctx, mm)
 					drain()
@@ -372,10 +379,11 @@ func runStages(em *hlib.Emitter, in input, final bool) {
 		result = gostatsd.NewMetricMap(false)
 	}
 	c.Coq = hlib.App("C07Cons", hlib.List([]string{hlib.App("BMetrics", hlib.List(expect))}), mmgen.Entries(result))
+	c.Monitors = append(c.Monitors, keyMonitor(result)...)
 	n := mmgen.Size(result)
 	c.Nontrivial = n >= 2 && nb >= 2
 	c.Obs = map[string]int{"live_series": n, "batches": nb, "datapoints": ndp, "dropped": ndropped, "parked": nparked,
-		"hit_deliveries": nhitDeliveries, "infos": ninfo}
+		"hit_deliveries": nhitDeliveries, "infos": ninfo, "lexed": nlexed}
 	if final && in.Family != 0 {
 		pr := project(result)
 		if prev, ok := familyProjection[in.Family]; ok {
@@ -478,7 +486,24 @@ func genStages(r *hlib.Rand, fam int) []input {
 			}
 			return t
 		}
-		if variant {
+		nameA := ""
+		for _, sp := range specs {
+			if len(sp.Dps) > 0 {
+				nameA = sp.Dps[0].Name
+				break
+			}
+		}
+		if variant && nameA != "" && r.Chance(1, 3) {
+			// filters scoped to ONE metric name: its v:* tags are dropped and some of its series are
+			// dropped entirely, while the other names keep the same tags (the scratch state of one
+			// series must not leak into the next)
+			p.Filters = append(p.Filters, filterCfg{MatchMetrics: []string{nameA}, DropTags: []string{"v:*"}})
+			dm := filterCfg{MatchMetrics: []string{nameA}, DropMetric: true}
+			if r.Bool() {
+				dm.MatchTags = []string{"v:" + string(rune('1'+r.Intn(3)))}
+			}
+			p.Filters = append(p.Filters, dm)
+		} else if variant {
 			p.Filters = append(p.Filters, filterCfg{DropTags: []string{"v:*"}, DropHost: r.Chance(1, 3)})
 		}
 		for n := r.Range(0, 2); n > 0; n-- {
@@ -524,7 +549,10 @@ func genStages(r *hlib.Rand, fam int) []input {
 			order[i], order[j] = order[j], order[i]
 		}
 		for _, bi := range order {
-			in.Ops = append(in.Ops, op{Op: "bmap", Dps: specs[bi].Dps})
+			in.Ops = append(in.Ops, op{Op: "bmap", Dps: specs[bi].Dps, Lex: specs[bi].Lex})
+			if r.Chance(1, 4) {
+				in.Ops = append(in.Ops, op{Op: "noise", R: r.Range(2, 6)})
+			}
 		}
 		insert := func(o op) {
 			at := r.Intn(len(in.Ops) + 1)
